@@ -3,6 +3,7 @@
 package table
 
 import (
+	"strings"
 	"time"
 
 	"github.com/grafana/carbon-relay-ng/aggregator"
@@ -371,5 +372,56 @@ func VerifC18TableRouteOps() {
 			}
 		}
 	}
+	verifCover("end")
+}
+
+// VerifC14View: the admin interface's `view` command (Table.Print) on tables that admin commands can build --
+// empty; entries of every kind; a route whose destinations were all deleted; entries with empty and with long
+// option texts -- returns the listing without panicking, and the listing names every route key.
+func VerifC14View() {
+	aggregator.InitMetrics()
+	t := verifNewTable(m20.NoneLegacy, m20.NoneM20, false)
+	verifAssert(len(t.Print()) > 0, "view-of-the-empty-table")
+	long := "a-rather-long-option-text-that-is-wider-than-every-default-column"
+	opt := []string{"", "x", long}[verifChoice("optlen", 3)]
+	all, _ := matcher.New(opt, "", opt, "", "", "")
+	t.AddBlacklist(&all)
+	if rw, err := rewriter.New("old"+opt, opt, "", -1); err == nil {
+		t.AddRewriter(rw)
+	}
+	am, _ := matcher.New("", "", "", "", "^a"+opt, "")
+	if a, err := aggregator.NewMocked("sum", am, "o"+opt, false, 10, 20, verifBool("dropraw"), make(chan []byte, 4), 4, verifNowFixed, make(chan time.Time)); err == nil {
+		t.AddAggregator(a)
+	}
+	nd := verifChoice("ndests", 3)
+	var ds []*dest.Destination
+	for j := 0; j < nd; j++ {
+		d, err := dest.New("r"+opt, all, []string{"127.0.0.1:2100", "127.0.0.1:2101"}[j], "/tmp/verif-spool", false, verifBool("pickle"), 1e9, 1e9, 10, 100, 10, 1000, 10, 1e9, 1e6, 1e6)
+		if err != nil {
+			panic(err)
+		}
+		ds = append(ds, d)
+	}
+	var r route.Route
+	var err error
+	switch verifChoice("kind", 3) {
+	case 0:
+		r, err = route.NewSendAllMatch("r"+opt, all, ds)
+	case 1:
+		r, err = route.NewSendFirstMatch("r"+opt, all, ds)
+	default:
+		r, err = route.NewConsistentHashing("r"+opt, all, ds)
+	}
+	if err != nil {
+		verifCover("route-refused")
+		return
+	}
+	t.AddRoute(r)
+	verifSettle()
+	if nd > 0 && verifBool("delete-a-destination") {
+		t.DelDestination("r"+opt, 0)
+	}
+	out := t.Print()
+	verifAssert(strings.Contains(out, "r"+opt), "view-lists-the-route")
 	verifCover("end")
 }
